@@ -164,6 +164,13 @@ class SimulationControl:
             for event in initial_events:
                 self._sim._event_heap.push(event)
 
+        # Re-arm the fault schedule: undo what still-open fault windows changed
+        # and generate the fault events again
+        fault_schedule = getattr(self._sim, "_fault_schedule", None)
+        if fault_schedule is not None:
+            for event in fault_schedule.reset(self._sim._start_time, self._sim):
+                self._sim._event_heap.push(event)
+
         # Replay events that were scheduled before the first run()
         self._sim._replay_pre_run_events()
 
